@@ -28,7 +28,8 @@ THEOREMS = [f'Gnpy.Gn.{t}' for t in (
     'nliSpec_nonneg', 'nli_cubic', 'nliSpec_cubic', 'nli_mono_power', 'nli_add_channel_exact', 'nliOf_perm',
     'nli_mono_add_channel', 'nli_perm', 'sortByF_eq_of_perm', 'input_order_irrelevant', 'sortByF_sorted_id', 'alpha_is_db', 'beta2_formula', 'gamma_at_ref')]
 RULE = ('cases from one PRNG: random fibre (length 0.1-300 km in km or m, scalar or per-frequency loss 0.15-0.35 dB/km, '
-        'dispersion of either sign with/without slope or per-frequency table, effective area and/or gamma or neither, '
+        'dispersion of either sign with/without slope (slope absent, explicitly 0.0, small, typical) or per-frequency table, '
+        'per-frequency tables listed in ascending / descending / shuffled frequency order, effective area and/or gamma or neither, '
         'reference wavelength/frequency/default, connector losses, padding) x random non-overlapping comb on the 6.25 GHz '
         'grid (1-120 channels quick, -400 thorough; uniform, mixed baud/slot/power/gaps, mixed power only); ~12 % malformed '
         '(loss table not covering the comb, overlapping slots, baud rate above slot width). A case is non-trivial when it '
@@ -76,7 +77,7 @@ def gen(rng, tier, widen=False):
             b = hi - 1e9 if side in ('high', 'both') else hi + 1e12
             if n == 1:
                 a, b = lo + 1e9, lo + 2e12
-            fib['loss_coef'] = {'value': [0.2, 0.22, 0.21], 'frequency': [a, (a + b) / 2, b]}
+            fib['loss_coef'] = FB._table(rng, [a, (a + b) / 2, b], [0.2, 0.22, 0.21])
         elif bad == 'overlap':
             if n == 1:
                 comb['f'].append(comb['f'][0] + comb['slot'][0] / 2)
@@ -237,7 +238,13 @@ def _run(case, drv):
                       'dispersion_negative': int(b2[0] > 0),
                       'area_given': int('effective_area' in fibp), 'gamma_given': int('gamma' in fibp),
                       'ref_given': int('ref_wavelength' in fibp or 'ref_frequency' in fibp),
-                      'length_in_m': int(fibp['length_units'] == 'm'), 'padding': int(fibp.get('att_in', 0) > 0)})
+                      'length_in_m': int(fibp['length_units'] == 'm'), 'padding': int(fibp.get('att_in', 0) > 0),
+                      'dispersion_slope_zero': int(fibp.get('dispersion_slope') == 0.0),
+                      'dispersion_slope_small': int(0 < abs(fibp.get('dispersion_slope') or 0) <= 2.0)})
+    if isinstance(fibp['loss_coef'], dict):
+        res.stats.update({'loss_table_' + FB.table_order(fibp['loss_coef']): 1})
+    if 'dispersion_per_frequency' in fibp:
+        res.stats.update({'dispersion_table_' + FB.table_order(fibp['dispersion_per_frequency']): 1})
     return res
 
 
